@@ -35,3 +35,9 @@ claim("C20",
       "The timeout manager is decided by structural rules that hold for every event history: all state changes of Sent/Received are dominated by the !useStaticTimeout leg (a static timeout is inert); every value stored to resendTimeout or handed to the booster reset is proved >= the one-second floor by interval analysis; samples are inserted only under !resent and invalidated under resent, and Received recomputes only from a present, consumed sample; Boost increments once, only past the rate-limit test, on a booster built with the limit on; every recomputation resets the boost with the stored value. Each clause of the property maps to one of these rules; histories and inter-event times need not be enumerated because the rules are path-insensitive facts of the code.",
       "Not decided: float32 rounding in the boost product (timeout = original + float32 product), and whether a late duplicate ACK is matched to the right sample (needs reasoning about sequence-number reuse).",
       "DESIGN.md §4 C20")
+
+claim("C12",
+      "typestate/ordering rules on Close (dominance + path queries), exhaustive enumeration of blocking points with an exit-alternative rule, resource pairing (go/ticker/timer vs. Wait/Stop)",
+      "Close and everything that can wait are decided structurally, for every moment at which Close may be called: the effectful body is a sync.Once closure; inside it close(quit) dominates all else, the FIN is attempted under a timeout context before cancel(), cancel() and queue.stop() dominate wg.Wait(), ticker stops come after the Wait; every blocking select / bare channel operation / WaitGroup.Wait / transport callback in gbn (enumerated from the SSA) has a termination alternative that Close triggers (quit, ctx.Done(), parent-closed channel) or a timer, and transport callbacks get g.ctx or a context derived from it; every go statement is WaitGroup-tracked and waited or self-terminating, every ticker/timer the connection creates is stopped on the close path. A schedule-independent argument of this kind is what 'at any moment, from any goroutine' needs; tests can only sample moments.",
+      "Not decided: the numeric bound on how long Close takes, what the peer observes after the FIN, goroutines or timers inside dependencies (grpc, websocket). Assumes transport callbacks honour their context.",
+      "DESIGN.md §4 C12")
